@@ -157,6 +157,16 @@ theorem bsplineBasisW_not_ok {nk npts xlen order : Nat}
   have hpos : 0 < I32 := by simp [I32]
   omega
 
+theorem bsplineBasisW64_ok {nk npts xlen order : Nat} (hk : order + 2 ≤ nk) (hx : npts ≤ xlen) (hnk : nk < I32)
+    (hcells : npts * nsplinesOf nk order < U64) : bsplineBasisW64 nk npts xlen order = .ok := by
+  unfold bsplineBasisW64
+  have hns : nsplinesOf nk order = nk - order - 1 := nsplinesOf_eq (by omega)
+  simp only [Nat.mod_eq_of_lt hcells]
+  rw [hns]
+  simp only [forN_ok_iff, seqAll_cons_ok, seqAll_nil, rd_ok_iff, inInt_ok_iff, and_true]
+  refine ⟨by omega, fun col hc row hr => ?_⟩
+  exact ⟨by omega, by omega, by omega, bsplineReads_ok order col (by omega), cell_lt hc hr⟩
+
 theorem calcPenaltyW_ok {vlaExtra ndim : Nat} {nspl : List Nat} {dim nk order porder : Nat}
     (hlen : nspl.length = ndim) (hdim : dim < ndim) (hns : nspl.getD dim 0 = nk - order - 1)
     (hk : 2 * order + 2 ≤ nk) (hp : porder ≤ order) (hx : vlaExtra = 1) (hnk : nk < I32) :
